@@ -2,6 +2,7 @@
 #include <unistd.h>
 
 double g_start = 0, g_deadline = 1e9;
+Recorder* g_rec = nullptr;
 thread_local sigjmp_buf* t_jmp = nullptr;
 
 double now_s()
@@ -110,7 +111,11 @@ void parallel_blocks(size_t nblocks, int threads, std::function<void(size_t, int
       {
       size_t b = next.fetch_add(1);
       if( b >= nblocks ) break;
-      fn(b, tid);
+      // last line of defence: a trap that no inner guard caught is still a verdict about the code under test, not a crash of the checker
+      int sig = guarded([&]{ fn(b, tid); });
+      if( sig && g_rec )
+        g_rec->viol(g_rec->cls(g_rec->prop_id + ".trap_in_unguarded_sweep"), static_cast<u64>(b), [&]{ Example e; e.entry = "implementation call inside enumeration block " + std::to_string(b); e.expected = "returns normally";
+          e.got = "killed by signal " + std::to_string(sig) + " (the rest of this block was skipped)"; return e; });
       }
     };
   if( threads <= 1 ) { worker(0); return; }
@@ -280,9 +285,19 @@ int main(int argc, char** argv)
   g_deadline = o.deadline_s;
   install_trap_handlers();
   Recorder rec;
+  rec.prop_id = o.prop;
+  g_rec = &rec;
   if( o.replay )
     {
     Shim* s = o.rcfg.rfind("probe-", 0) == 0 ? nullptr : load_shim(o.shim_dir, o.rcfg);
+    if( o.rcase == "trap_un" || o.rcase == "trap_bin" )
+      {   // generic replay of a trap recorded by a sweep helper
+      int op = static_cast<int>(parse_i64(o.rin.at(0))); i64 a = parse_i64(o.rin.at(1)), b = parse_i64(o.rin.at(2));
+      int sg = guarded([&]{ if( o.rcase == "trap_un" ) s->fm_un(op, a); else s->fm_bin(op, a, b); });
+      rec.add_states(1,1,1);
+      if( sg ) rec.viol(rec.cls(o.prop + ".trap"), 0, [&]{ Example e; e.entry = "entry point #" + std::to_string(op); e.cfg = o.rcfg; e.expected = "returns normally"; e.got = "killed by signal " + std::to_string(sg); e.rcase = o.rcase; e.rin = o.rin; return e; });
+      }
+    else
     def->replay(o, s, rec);
     rec.write_json(stdout, o, now_s() - g_start);
     return rec.violations() ? 1 : 0;
